@@ -2,7 +2,14 @@
 """Regenerates MANIFEST.json from tools/props.json (single source of truth)."""
 import json, os, subprocess
 V = os.path.dirname(os.path.dirname(os.path.abspath(__file__)))
-conf = json.load(open(os.path.join(V, "tools", "props.json")))
+conf = {f[:-5]: json.load(open(os.path.join(V, "tools", "props.d", f))) for f in sorted(os.listdir(os.path.join(V, "tools", "props.d"))) if f.endswith(".json")}
+# known_findings.json = concatenation of known_findings.d/*.json (edited by hand, never at run time)
+kf = []
+kd = os.path.join(V, "known_findings.d")
+for f in sorted(os.listdir(kd)):
+    if f.endswith(".json"):
+        kf += json.load(open(os.path.join(kd, f)))
+json.dump({"comment": "known: genuine defect recorded, its trigger class is excluded from generation and the probe prints KNOWN-FINDING; fixed: repaired by the named fix: commit in /repo, suppresses nothing (the probe is an ordinary assertion)", "findings": kf}, open(os.path.join(V, "known_findings.json"), "w"), indent=1)
 allp = [json.loads(l)["id"] for l in open(os.path.join(V, "properties.jsonl"))]
 try:
     hooks = subprocess.run(["git", "-C", "/repo", "log", "--format=%H %s", "--grep=^verif hook"], capture_output=True, text=True).stdout.split("\n")
